@@ -434,6 +434,34 @@ func (w *world) alphabet0(thorough bool) []op {
 			}
 		}
 	}
+	// a client that starts a protocol over while presenting the token of a session that is still alive: the first
+	// message always opens a NEW session, distinct from every live one and with nothing in it
+	for _, tn := range []string{"t0", "t2"} {
+		proto := protocol.TO2Protocol
+		if tn == "t2" {
+			proto = protocol.DIProtocol
+		}
+		out = append(out, op{"NewToken(presenting " + tn + ")", func(w *world) {
+			nt, err := w.db.NewToken(w.tctx(tn), proto)
+			if err != nil {
+				w.viol("newtoken-fails", "NewToken with the token %s in the context: %v", tn, err)
+				return
+			}
+			for name, t := range w.tok {
+				if t == nt {
+					w.viol("newtoken-not-fresh", "NewToken with %s in the context returned the token of the existing session %s", tn, name)
+					return
+				}
+			}
+			nctx := w.db.TokenContext(w.ctx, nt)
+			for _, f := range w.flds {
+				if got, err := f.get(w.db, nctx); err == nil {
+					w.viol("new-session-inherits-state:"+f.name, "a session just opened (while %s was presented) already holds %s = %s", tn, f.name, short(got))
+				}
+			}
+			_ = w.db.InvalidateToken(nctx)
+		}})
+	}
 	for _, tn := range toks {
 		out = append(out, op{"InvalidateToken(" + tn + ")", func(w *world) {
 			err := w.db.InvalidateToken(w.tctx(tn))
